@@ -22,6 +22,7 @@ def parseOp (C : Nat) : List String → Option (Op × List String)
   | "itermut" :: v :: rest => some (.iterMutSet (parseNat! v), rest)
   | "itermutrev" :: v :: rest => some (.iterMutRevSet (parseNat! v), rest)
   | "clone" :: rest => some (.clone, rest)
+  | "clonefrom" :: r :: v :: rest => some (.cloneFrom (parseNat! r) (parseNat! v), rest)
   | "row" :: i :: n :: rest =>
     let (vals, rest') := takeNats rest (parseNat! n)
     some (.setRow (parseNat! i) vals, rest')
@@ -38,29 +39,30 @@ def parseOp (C : Nat) : List String → Option (Op × List String)
     some (.fromRows rs, rest')
   | _ => none
 
-partial def runOps {C : Nat} (m : Mat Nat C) (toks : List String) (acc : List String) : List String :=
+partial def runOps {C : Nat} (dflt : Nat) (m : Mat Nat C) (toks : List String) (acc : List String) : List String :=
   match toks with
   | [] => acc.reverse
   | _ =>
     match parseOp C toks with
     | none => ("bad-op" :: acc).reverse
     | some (op, rest) =>
-      match step m op with
-      | .ok m' => runOps m' rest (observe m' :: acc)
-      | .error _ => runOps m rest (("panic " ++ observe m) :: acc)
+      match step dflt m op with
+      | .ok m' => runOps dflt m' rest (observe m' :: acc)
+      | .error _ => runOps dflt m rest (("panic " ++ observe m) :: acc)
 
 def handle (toks : List String) : String :=
   match toks with
-  | "c19" :: _ty :: c :: rest =>
+  | "c19" :: ty :: c :: rest =>
+    let dflt := if ty == "nuc" then 4 else 0
     let out : List String :=
       match parseNat! c with
-      | 1 => runOps (C := 1) Mat.empty rest []
-      | 5 => runOps (C := 5) Mat.empty rest []
-      | 7 => runOps (C := 7) Mat.empty rest []
-      | 16 => runOps (C := 16) Mat.empty rest []
-      | 21 => runOps (C := 21) Mat.empty rest []
-      | 32 => runOps (C := 32) Mat.empty rest []
-      | 43 => runOps (C := 43) Mat.empty rest []
+      | 1 => runOps (C := 1) dflt Mat.empty rest []
+      | 5 => runOps (C := 5) dflt Mat.empty rest []
+      | 7 => runOps (C := 7) dflt Mat.empty rest []
+      | 16 => runOps (C := 16) dflt Mat.empty rest []
+      | 21 => runOps (C := 21) dflt Mat.empty rest []
+      | 32 => runOps (C := 32) dflt Mat.empty rest []
+      | 43 => runOps (C := 43) dflt Mat.empty rest []
       | _ => ["bad-C"]
     " ; ".intercalate out
   | "c19layout" :: c :: size :: align :: _ =>
